@@ -565,8 +565,15 @@ func ruleV5(r *Run) {
 							// buf[0:k] right after a refill under tail >= k, with head = k
 							okB := false
 							for _, fc := range collectFacts(parents, x) {
-								if be, ok := fc.e.(*ast.BinaryExpr); ok && !fc.neg && be.Op == token.GEQ && isF(be.X, tailF) && same(be.Y, x.High) {
-									okB = true
+								// tail >= k in any spelling: as a positive test, or as the failed test of `if tail < k { ...; continue }`
+								if be, ok := fc.e.(*ast.BinaryExpr); ok {
+									switch {
+									case !fc.neg && be.Op == token.GEQ && isF(be.X, tailF) && same(be.Y, x.High),
+										fc.neg && be.Op == token.LSS && isF(be.X, tailF) && same(be.Y, x.High),
+										!fc.neg && be.Op == token.LEQ && isF(be.Y, tailF) && same(be.X, x.High),
+										fc.neg && be.Op == token.GTR && isF(be.Y, tailF) && same(be.X, x.High):
+										okB = true
+									}
 								}
 							}
 							if !okB || !afterRefill(x) {
